@@ -10,7 +10,7 @@ def QS (s : Seg) : Prop := ∃ l, Linked s l ∧ Clean s l
 theorem freeSlot_QS {s : Seg} {l : List Nat} (hl : Linked s l) (hc : Clean s l) (a : Nat)
     (hf : (s.get a).deleted = true ∨ (s.get a).copied = true) : Linked (s.freeSlot a) l ∧ Clean (s.freeSlot a) l ∧
       (∀ j, j ≠ a → ((s.freeSlot a).get j).next = (s.get j).next ∧ ((s.freeSlot a).get j).prev = (s.get j).prev ∧
-        ((s.freeSlot a).get j).deleted = (s.get j).deleted) := by
+        ((s.freeSlot a).get j).deleted = (s.get j).deleted ∧ ((s.freeSlot a).get j).copied = (s.get j).copied) := by
   have hal : a ∉ l := fun hh => by
     have := hc.live a hh
     rcases hf with hf | hf
@@ -62,7 +62,7 @@ theorem freeSlot_QS {s : Seg} {l : List Nat} (hl : Linked s l) (hc : Clean s l) 
   rotate_left 2
   · intro j hj
     rw [gne j hj]
-    exact ⟨(hsl j).1, (hsl j).2.1, (hsl j).2.2.1⟩
+    exact ⟨(hsl j).1, (hsl j).2.1, (hsl j).2.2.1, (hsl j).2.2.2⟩
   · exact chain_congr (fun j hj => by rw [gne j (fun hh => hal (hh ▸ hj))]; exact ⟨rfl, rfl⟩) l1.chain
   · refine ⟨fun j hj => ?_, ?_, ?_, ?_, ?_, c1.count⟩
     · rw [gne j (fun hh => hal (hh ▸ hj))]; exact c1.live j hj
@@ -143,19 +143,19 @@ theorem freeSlot_isok {s : Seg} {l : List Nat} (hl : Linked s l) (hc : Clean s l
   obtain ⟨_, _, hfr⟩ := freeSlot_QS hl hc a hf
   split
   · rename_i hoa
-    rcases ho with h0 | ⟨i, h1, h2⟩ | ⟨d, h1, h2, h3, h4, h5⟩
+    rcases ho with h0 | ⟨i, h1, h2⟩ | ⟨d, h1, h2, h3, h4, h5, h6⟩
     · rw [h0] at hoa; cases hoa
     · rw [h1] at hoa; cases hoa; exact absurd h2 hal
     · rw [h1] at hoa; cases hoa
       rw [h5, Option.none_or, h4]
       exact isok_opt_mem (fun x hx => head?_mem hx)
   · rename_i hoa
-    rcases ho with h0 | ⟨i, h1, h2⟩ | ⟨d, h1, h2, h3, h4, h5⟩
+    rcases ho with h0 | ⟨i, h1, h2⟩ | ⟨d, h1, h2, h3, h4, h5, h6⟩
     · exact .inl h0
     · exact .inr (.inl ⟨i, h1, h2⟩)
     · have hda : d ≠ a := fun e => hoa (by rw [h1, e])
       have := hfr d hda
-      exact .inr (.inr ⟨d, h1, h2, by rw [this.2.2]; exact h3, by rw [this.1]; exact h4, by rw [this.2.1]; exact h5⟩)
+      exact .inr (.inr ⟨d, h1, h2, by rw [this.2.2.1]; exact h3, by rw [this.1]; exact h4, by rw [this.2.1]; exact h5, by rw [this.2.2.2]; exact h6⟩)
 
 theorem gcStep_JO (acc : Ctx × Option Nat) (k : Nat) {l : List Nat} (h : JO acc.1 l acc.2) :
     JO (gcStep acc k).1 l (gcStep acc k).2 := by
